@@ -41,7 +41,18 @@ fn shape(k: usize) -> (Context, Node) {
     let q = ctx.add(my, k5).unwrap();
     let pq = ctx.mul(p, q).unwrap();
     let t = ctx.add(pq, mz).unwrap();
-    let root = match k % 3 {
+    let root = match k % 4 {
+        3 => {
+            // three clauses of one form (each decided the same way by its own region): after a first simplification the
+            // traces of different regions on different children can be equal, clause for clause, and mean different things
+            let k1y = c(&mut ctx, 0.1);
+            let ay = ctx.sub(k1y, y).unwrap();
+            let my2 = ctx.min(y, ay).unwrap();
+            let q2 = ctx.add(my2, k5).unwrap();
+            let pq2 = ctx.mul(p, q2).unwrap();
+            let t2 = ctx.add(pq2, mz).unwrap();
+            ctx.add(t2, r).unwrap()
+        }
         0 => ctx.add(t, r).unwrap(),
         1 => {
             let u = ctx.sin(t).unwrap();
@@ -56,18 +67,21 @@ fn shape(k: usize) -> (Context, Node) {
     (ctx, root)
 }
 
-/// regions: 1 decides X, 2 decides Y, 3 decides nothing; all contain [0.2, 0.9]^2 x [-1, 1]
+/// regions: 1 decides X, 2 decides Y, 3 decides nothing, 4 decides Z
 fn region(b: i64) -> [Interval; 3] {
     let full = Interval::new(-1.0, 1.0);
     let pos = Interval::new(0.2, 0.9);
     match b {
         1 => [pos, full, full],
         2 => [full, pos, full],
+        4 => [full, full, pos],
         _ => [full, full, full],
     }
 }
 
-fn replay<F: Function + MathFunction + Clone>(w: &mut dyn Write, id: &mut usize, backend: &str, walks: &[Vec<i64>], k: usize, rng: &mut Rng) {
+/// `external`: the traces handed to `RenderHandle::simplify` come from the client's own copies of the shapes (a chain of
+/// plain simplifications kept next to the handle), so that no level of the handle but the last one ever builds a tape
+fn replay<F: Function + MathFunction + Clone>(w: &mut dyn Write, id: &mut usize, backend: &str, walks: &[Vec<i64>], k: usize, rng: &mut Rng, external: bool) {
     let (ctx, root) = shape(k);
     let s = Shape::<F>::new(&ctx, root).unwrap();
     let vars = ShapeVars::<f32>::new();
@@ -75,14 +89,15 @@ fn replay<F: Function + MathFunction + Clone>(w: &mut dyn Write, id: &mut usize,
     // sample points of a walk lie inside every region of that walk (and, wherever possible, outside the others,
     // so that a child cached for another region gives itself away)
     let sample = |walk: &[i64], rng: &mut Rng| -> (Vec<f32>, Vec<f32>, Vec<f32>) {
-        let (mut x0, mut y0) = (-1.0f32, -1.0f32);
-        let (mut x1, mut y1) = (1.0f32, 1.0f32);
+        let (mut x0, mut y0, mut z0) = (-1.0f32, -1.0f32, -1.0f32);
+        let (mut x1, mut y1, mut z1) = (1.0f32, 1.0f32, 1.0f32);
         for b in walk {
             if *b == 1 { x0 = 0.2; x1 = 0.9; }
             if *b == 2 { y0 = 0.2; y1 = 0.9; }
+            if *b == 4 { z0 = 0.2; z1 = 0.9; }
         }
         let pick = |lo: f32, hi: f32, rng: &mut Rng| if lo < 0.0 && rng.below(3) > 0 { rng.range(-1.0, 0.0) } else { rng.range(lo, hi) };
-        ((0..n).map(|_| pick(x0, x1, rng)).collect(), (0..n).map(|_| pick(y0, y1, rng)).collect(), (0..n).map(|_| rng.range(-1.0, 1.0)).collect())
+        ((0..n).map(|_| pick(x0, x1, rng)).collect(), (0..n).map(|_| pick(y0, y1, rng)).collect(), (0..n).map(|_| pick(z0, z1, rng)).collect())
     };
     let fresh_at = |xs: &[f32], ys: &[f32], zs: &[f32]| -> Vec<i64> {
         let mut e = Shape::<F>::new_float_slice_eval();
@@ -92,14 +107,19 @@ fn replay<F: Function + MathFunction + Clone>(w: &mut dyn Write, id: &mut usize,
     let mut shape_storage: Vec<F::Storage> = vec![];
     let mut tape_storage: Vec<F::TapeStorage> = vec![];
     let mut workspace = F::Workspace::default();
+    let mut ext_workspace = F::Workspace::default();
     let mut ie = Shape::<F>::new_interval_eval();
     let mut fe = Shape::<F>::new_float_slice_eval();
     let mut handle = RenderHandle::new(s.clone());
     let mut steps = vec![];
     // the history, then the first walk again on a new handle that inherits the recycled storage
-    let mut all: Vec<Vec<i64>> = walks.to_vec();
+    // the regions of the model are labels: for the shape with three like clauses the second one stands for "decides Z"
+    // and the third for "decides Y", so that a history visits X-then-Z and Y-then-Z
+    let relabel = k % 4 == 3;
+    let mut all: Vec<Vec<i64>> = walks.iter().map(|wk| wk.iter().map(|b| if relabel { match *b { 2 => 4, 3 => 2, o => o } } else { *b }).collect()).collect();
     all.push(vec![-1]);
-    all.push(walks[0].clone());
+    let first = all[0].clone();
+    all.push(first);
     for walk in &all {
         if walk == &vec![-1] {
             let old = std::mem::replace(&mut handle, RenderHandle::new(s.clone()));
@@ -111,10 +131,22 @@ fn replay<F: Function + MathFunction + Clone>(w: &mut dyn Write, id: &mut usize,
         let r = vharness::catch(std::panic::AssertUnwindSafe(|| {
             let mut cur = &mut handle;
             let mut levels = 0;
+            let mut ext: Shape<F> = s.clone();
             for b in walk {
                 let [bx, by, bz] = region(*b);
-                let (_, trace) = ie.eval_with_transform_and_vars(cur.i_tape(&mut tape_storage), bx, by, bz, &nalgebra::Matrix4::identity(), &vars).unwrap();
-                if let Some(tr) = trace.cloned() {
+                let trace = if external {
+                    let tape = ext.ez_interval_tape();
+                    let tr = ie.eval_with_transform_and_vars(&tape, bx, by, bz, &nalgebra::Matrix4::identity(), &vars).unwrap().1.cloned();
+                    if let Some(tr) = &tr {
+                        // the client's copy follows the same rule as the handle: a simplification that is not shorter is not used
+                        let child = ext.simplify(tr, Default::default(), &mut ext_workspace).unwrap();
+                        if child.size() < ext.size() { ext = child; }
+                    }
+                    tr
+                } else {
+                    ie.eval_with_transform_and_vars(cur.i_tape(&mut tape_storage), bx, by, bz, &nalgebra::Matrix4::identity(), &vars).unwrap().1.cloned()
+                };
+                if let Some(tr) = trace {
                     let before = cur as *const _;
                     cur = cur.simplify(&tr, &mut workspace, &mut shape_storage, &mut tape_storage);
                     if !std::ptr::eq(before, cur as *const _) {
@@ -125,13 +157,77 @@ fn replay<F: Function + MathFunction + Clone>(w: &mut dyn Write, id: &mut usize,
             let out: Vec<i64> = fe.eval_with_transform_and_vars(cur.f_tape(&mut tape_storage), &xs, &ys, &zs, &nalgebra::Matrix4::identity(), &vars).unwrap().iter().map(|v| bits(*v)).collect();
             (out, levels)
         }));
-        let action = json!(["handle", format!("{walk:?}")]);
+        let action = json!([if external { "handle-external-traces" } else { "handle" }, format!("{walk:?}")]);
         match r {
             Ok((out, levels)) => steps.push(json!({"action": action, "reused": {"out": out}, "fresh": {"out": fresh}, "levels": levels})),
             Err(m) => steps.push(json!({"action": action, "reused": {"panic": m}, "fresh": {"out": fresh}, "levels": -1})),
         }
     }
     writeln!(w, "{}", json!({"ev": "hist", "id": *id, "backend": backend, "kind": "handle", "len": steps.len(), "steps": steps})).unwrap();
+    *id += 1;
+}
+
+/// Shape-level evaluators (the objects the renderers and the mesher keep per worker) used across shapes that read
+/// different sets of variables, with different batch sizes, while earlier shapes are dropped and new ones built:
+/// every result must be what fresh evaluators return.
+fn shape_evals<F: Function + MathFunction + Clone>(w: &mut dyn Write, id: &mut usize, backend: &str, rng: &mut Rng, rounds: usize) {
+    use fidget_core::var::Var;
+    let mut pe = Shape::<F>::new_point_eval();
+    let mut ie = Shape::<F>::new_interval_eval();
+    let mut fe = Shape::<F>::new_float_slice_eval();
+    let mut ge = Shape::<F>::new_grad_slice_eval();
+    let extra: Vec<Var> = (0..3).map(|_| Var::new()).collect();
+    let mut steps = vec![];
+    for r in 0..rounds {
+        // a weighted sum of a subset of {x, y, z, a, b, c}, met in a random order (the first met gets slot 0)
+        let mut ctx = Context::new();
+        let mut terms: Vec<(usize, Node)> = vec![];
+        let mut order: Vec<usize> = (0..6).collect();
+        for i in (1..6).rev() { order.swap(i, rng.below(i + 1)); }
+        let nuse = 1 + rng.below(6);
+        for &v in order.iter().take(nuse) {
+            let n = match v { 0 => ctx.x(), 1 => ctx.y(), 2 => ctx.z(), k => ctx.var(extra[k - 3]) };
+            terms.push((v, n));
+        }
+        let mut acc: Option<Node> = None;
+        for (v, n) in &terms {
+            let c = ctx.constant([2.0f32, 3.0, 5.0, 7.0, 11.0, 13.0][*v]);
+            let t = ctx.mul(*n, c).unwrap();
+            acc = Some(match acc { None => t, Some(a) => ctx.add(a, t).unwrap() });
+        }
+        let m = ctx.min(acc.unwrap(), terms[0].1).unwrap();
+        let shape = Shape::<F>::new(&ctx, m).unwrap();
+        let mut vars = ShapeVars::<f32>::new();
+        for (k, v) in extra.iter().enumerate() { vars.insert(v.index().unwrap(), 0.5 + k as f32); }
+        let n = [1usize, 3, 8, 9, 17, 2][rng.below(6)];
+        let xs: Vec<f32> = (0..n).map(|_| rng.range(-2.0, 2.0)).collect();
+        let ys: Vec<f32> = (0..n).map(|_| rng.range(-2.0, 2.0)).collect();
+        let zs: Vec<f32> = (0..n).map(|_| rng.range(-2.0, 2.0)).collect();
+        let gx: Vec<fidget_core::types::Grad> = xs.iter().map(|v| fidget_core::types::Grad::new(*v, 1.0, 0.0, 0.0)).collect();
+        let gy: Vec<fidget_core::types::Grad> = ys.iter().map(|v| fidget_core::types::Grad::new(*v, 0.0, 1.0, 0.0)).collect();
+        let gz: Vec<fidget_core::types::Grad> = zs.iter().map(|v| fidget_core::types::Grad::new(*v, 0.0, 0.0, 1.0)).collect();
+        let bx = Interval::new(xs[0].min(0.0), xs[0].max(0.5));
+        let run = |pe: &mut fidget_core::shape::ShapeTracingEval<F::PointEval>, ie: &mut fidget_core::shape::ShapeTracingEval<F::IntervalEval>,
+                   fe: &mut fidget_core::shape::ShapeBulkEval<F::FloatSliceEval>, ge: &mut fidget_core::shape::ShapeBulkEval<F::GradSliceEval>| -> serde_json::Value {
+            let r = vharness::catch(std::panic::AssertUnwindSafe(|| {
+                let p = pe.eval_with_vars(&shape.ez_point_tape(), xs[0], ys[0], zs[0], &vars).map(|(v, _)| bits(v)).map_err(|e| format!("{e}"));
+                let i = ie.eval_with_vars(&shape.ez_interval_tape(), bx, Interval::new(-1.0, 1.0), Interval::new(0.0, 0.25), &vars).map(|(v, _)| [bits(v.lower()), bits(v.upper())]).map_err(|e| format!("{e}"));
+                let f = fe.eval_with_vars(&shape.ez_float_slice_tape(), &xs, &ys, &zs, &vars).map(|o| o.iter().map(|v| bits(*v)).collect::<Vec<_>>()).map_err(|e| format!("{e}"));
+                let g = ge.eval_with_vars(&shape.ez_grad_slice_tape(), &gx, &gy, &gz, &vars).map(|o| o.iter().map(|g| [bits(g.v), bits(g.dx), bits(g.dy), bits(g.dz)]).collect::<Vec<_>>()).map_err(|e| format!("{e}"));
+                json!({"point": p.map(|v| json!(v)).unwrap_or_else(|e| json!(e)), "interval": i.map(|v| json!(v)).unwrap_or_else(|e| json!(e)),
+                       "float": f.map(|v| json!(v)).unwrap_or_else(|e| json!(e)), "grad": g.map(|v| json!(v)).unwrap_or_else(|e| json!(e))})
+            }));
+            match r { Ok(v) => json!({"out": v}), Err(m) => json!({"panic": m}) }
+        };
+        let reused = run(&mut pe, &mut ie, &mut fe, &mut ge);
+        let fresh = run(&mut Shape::<F>::new_point_eval(), &mut Shape::<F>::new_interval_eval(), &mut Shape::<F>::new_float_slice_eval(), &mut Shape::<F>::new_grad_slice_eval());
+        if reused.get("panic").is_some() {
+            pe = Shape::<F>::new_point_eval(); ie = Shape::<F>::new_interval_eval(); fe = Shape::<F>::new_float_slice_eval(); ge = Shape::<F>::new_grad_slice_eval();
+        }
+        steps.push(json!({"action": ["shape-evaluators", format!("round {r}: {nuse} variables, {n} samples")], "reused": reused, "fresh": fresh, "levels": 0}));
+        // the shape (and its variable map) is dropped here; the next one is typically allocated where it was
+    }
+    writeln!(w, "{}", json!({"ev": "hist", "id": *id, "backend": backend, "kind": "shape-evaluators", "len": steps.len(), "steps": steps})).unwrap();
     *id += 1;
 }
 
@@ -153,11 +249,17 @@ fn main() {
         let end = l.rfind("\">>").unwrap();
         let c: serde_json::Value = serde_json::from_str(&l[start..end].replace("\\\"", "\"")).unwrap();
         let walks: Vec<Vec<i64>> = c["walks"].as_array().unwrap().iter().map(|p| p.as_array().unwrap().iter().map(|b| b.as_i64().unwrap()).collect()).collect();
-        if k % 3 == 2 {
-            replay::<JitFunction>(&mut w, &mut id, "jit", &walks, k / 3, &mut rng);
+        // shape, backend and the source of the traces vary independently (h counts the histories actually replayed)
+        let h = if quick { k / 2 } else { k };
+        let (si, external) = (h % 4, (h / 4) % 2 == 0);
+        if (h / 8) % 3 == 2 {
+            replay::<JitFunction>(&mut w, &mut id, "jit", &walks, si, &mut rng, external);
         } else {
-            replay::<VmFunction>(&mut w, &mut id, "vm", &walks, k / 3, &mut rng);
+            replay::<VmFunction>(&mut w, &mut id, "vm", &walks, si, &mut rng, external);
         }
+    }
+    for k in 0..(if quick { 20 } else { 200 }) {
+        if k % 2 == 0 { shape_evals::<VmFunction>(&mut w, &mut id, "vm", &mut rng, 24); } else { shape_evals::<JitFunction>(&mut w, &mut id, "jit", &mut rng, 24); }
     }
     w.flush().unwrap();
     eprintln!("handle: {} histories", id - 5_000_000);
